@@ -313,3 +313,17 @@ func TestFindingC09Int53(t *testing.T) {
 		t.Fatalf("VERIF-FAIL property=C09 class=int53: integer %d arrives as %d (JSON numbers are decoded as float64 before conversion to int)", big, got)
 	}
 }
+
+// TestFindingC03CrossTableUUIDDeleted: same family as cross-table-uuid (uuids are treated as
+// unique across tables): the rows a transaction deleted are remembered by uuid only, so a
+// row of another table that shares the uuid becomes invisible to later operations.
+func TestFindingC03CrossTableUUIDDeleted(t *testing.T) {
+	p := newPinned(t, `{"name":"DB","version":"1.0.0","tables":{"A":{"isRoot":true,"columns":{"n":{"type":"integer"}}},"B":{"isRoot":true,"columns":{"n":{"type":"integer"}}}}}`)
+	if js, failed, _ := p.txn(fmt.Sprintf(`[{"op":"insert","table":"A","uuid":"%s","row":{"n":1}},{"op":"insert","table":"B","uuid":"%s","row":{"n":5}}]`, u(10), u(10))); failed {
+		t.Fatalf("setup: %s", js)
+	}
+	js, failed, res := p.txn(fmt.Sprintf(`[{"op":"delete","table":"A","where":[["_uuid","==",["uuid","%s"]]]},{"op":"mutate","table":"B","where":[["_uuid","==",["uuid","%s"]]],"mutations":[["n","-=",2]]}]`, u(10), u(10)))
+	if failed || len(res) != 2 || res[1].Count != 1 {
+		t.Fatalf("VERIF-FAIL property=C03 class=cross-table-uuid-deleted: after deleting row u of table A in the same transaction, a mutate of row u of table B affects %s", js)
+	}
+}
